@@ -219,7 +219,34 @@ def r154(prog, chk):
     ok = len(rec) == 1 and prog.cfg(f).exists_path(prog.cfg(f).node_of(rec[0]), [prog.cfg(f).node_of(add[0])])
     chk.ob("R15.4", f"{f.short}|bases are processed before their anchors are read", ok, where(f, rec[0]) if rec else where(f), detail="recursive call precedes the collection", nontrivial=False,
            message=f"{f.short}: a composite reads its base's anchors before the base itself received propagated anchors")
-    chk.minimum("R15.4", 8)
+    # (f) a component is a base or a mark, never both: the two work lists partition the components
+    base_l = T(add[0].args[2])
+    adj = [c for c in calls_named(f, "_adjust_anchors")]
+    need(len(adj) == 1, f"cannot interpret {f.short}: _adjust_anchors call")
+    aloop = [a for a in ix.ancestors(adj[0]) if isinstance(a, ast.For)]
+    need(len(aloop) == 1 and isinstance(aloop[0].iter, ast.Name), f"cannot interpret {f.short}: loop over the mark components")
+    mark_l = aloop[0].iter.id
+    apps = {l: [c for c in A.body_nodes(f.node) if isinstance(c, ast.Call) and isinstance(c.func, ast.Attribute) and c.func.attr == "append" and T(c.func.value) == l] for l in (base_l, mark_l)}
+    rems = {l: [c for c in A.body_nodes(f.node) if isinstance(c, ast.Call) and isinstance(c.func, ast.Attribute) and c.func.attr == "remove" and T(c.func.value) == l] for l in (base_l, mark_l)}
+    cfg = prog.cfg(f)
+    bad = []
+
+    def within(stmts, n):
+        return any(n is x for st_ in stmts for x in ast.walk(st_))
+    for c in apps[base_l]:
+        for c2 in apps[mark_l]:
+            if T(c2.args[0]) != T(c.args[0]):
+                continue
+            # opposite branches of one classification test: exclusive per component
+            if any(isinstance(i_, ast.If) and ((within(i_.body, c) and within(i_.orelse, c2)) or (within(i_.body, c2) and within(i_.orelse, c))) for i_ in ast.walk(f.node)):
+                continue
+            later, other = (c, mark_l) if (c.lineno, c.col_offset) > (c2.lineno, c2.col_offset) else (c2, base_l)
+            if not any(T(r_.args[0]) == T(later.args[0]) and cfg.dominates(cfg.node_of(r_), cfg.node_of(later)) for r_ in rems[other]):
+                bad.append(T(later))
+    chk.ob("R15.4", f"{f.short}|base and mark components partition the components (a promoted mark is removed from the marks)", bool(apps[base_l]) and bool(apps[mark_l]) and not bad, where(f),
+           detail=f"{len(apps[base_l])}+{len(apps[mark_l])} append(s), {len(rems[mark_l])} removal(s)",
+           message=f"{f.short}: a component can be handled both as base and as mark ({bad}): its own anchors then override the adjustments of the other marks")
+    chk.minimum("R15.4", 9)
 
 
 # ----------------------------------------------------------------------------- R15.5
@@ -317,6 +344,8 @@ MUTANTS = [
       "if not any((any((_isTransformed(c) for c in g.components)) for g in glyphs)):\n    return False\nreturn super().filter(glyphName, glyphs)",
       "if not all((any((_isTransformed(c) for c in g.components)) for g in glyphs)):\n    return False\nreturn super().filter(glyphName, glyphs)", rule="R15.2"),
     M("nested offset axes swapped", "ufo2ft/filters/flattenComponents.py", "_flattenComponent", "flat_tr.translate(tr.dx, tr.dy)", "flat_tr.translate(tr.dy, tr.dx)", rule="R15.3"),
+    M("promoted mark stays in the mark list (mutation scan k=146)", "ufo2ft/filters/propagateAnchors.py", "_propagate_glyph_anchors",
+      "mark_components.remove(component)", "pass", rule="R15.4"),
     M("propagation overrides existing anchors", "ufo2ft/filters/propagateAnchors.py", "_propagate_glyph_anchors",
       "if not any((a.name.startswith(anchor_name) for a in composite.anchors)):\n    _get_anchor_data(to_add, glyphSet, base_components, anchor_name)",
       "_get_anchor_data(to_add, glyphSet, base_components, anchor_name)", rule="R15.4"),
